@@ -21,6 +21,7 @@ import (
 	"net/http"
 	"net/http/httptest"
 	"os"
+	"regexp"
 	"strings"
 	"sync"
 	"testing/synctest"
@@ -245,11 +246,20 @@ type sbrSrv struct {
 
 type sbrCtxKey struct{}
 
+var sbrTagRe = regexp.MustCompile(`rq\d+`)
+
 // use is called at every entry of a handler into the runner: it attributes the call to the HTTP request (through the
 // request context the handler passes down) and evaluates the C01 monitors that need the caller.
-func (s *sbrSrv) use(ctx context.Context, what string) *sbrReq {
+func (s *sbrSrv) use(ctx context.Context, what string, byPrompt *sbrReq) *sbrReq {
 	x, e := s.x, s.x.e
 	r, _ := ctx.Value(sbrCtxKey{}).(*sbrReq)
+	if r == nil && byPrompt != nil {
+		// the handler gave the runner a context that is not derived from the request's: the call is still this request's
+		r = byPrompt
+		e.mu.Lock()
+		e.flag("call_context_without_request_values")
+		e.mu.Unlock()
+	}
 	sbPerturbPoint("fake: " + what) // stretches the window between the hand-over and the handler's use of the runner
 	e.mu.Lock()
 	defer e.mu.Unlock()
@@ -349,8 +359,8 @@ func (s *sbrSrv) work(ctx context.Context, r *sbrReq) error {
 
 // enter / leave bracket one Completion or Embedding call: while any call of a request is executing the request is in
 // progress on that instance (a handler cannot return before its calls have).
-func (s *sbrSrv) enter(ctx context.Context, what string) *sbrReq {
-	r := s.use(ctx, what)
+func (s *sbrSrv) enter(ctx context.Context, what string, byPrompt *sbrReq) *sbrReq {
+	r := s.use(ctx, what, byPrompt)
 	if r != nil {
 		s.x.e.mu.Lock()
 		r.active++
@@ -359,7 +369,7 @@ func (s *sbrSrv) enter(ctx context.Context, what string) *sbrReq {
 	return r
 }
 
-func (s *sbrSrv) leave(r *sbrReq, what string, err error) {
+func (s *sbrSrv) leave(ctx context.Context, r *sbrReq, what string, err error) {
 	if r == nil {
 		return
 	}
@@ -369,13 +379,28 @@ func (s *sbrSrv) leave(r *sbrReq, what string, err error) {
 	e.logf("%s returns req=%d inst=%d err=%v (calls of the request still running: %d)", what, r.sb.id, s.id, err, r.active)
 	if s.closeBegun > 0 && !r.sb.finished {
 		e.violate("C01", "runner instance %d (model %d) was shut down while a %s call of request %d, whose handler has not returned and whose client is still there, was executing on it", s.id, s.model, what, r.sb.id)
+	} else if s.closeBegun > 0 && ctx.Err() == nil && r.startedBeforeClose {
+		// the client has gone, yet nobody told the runner: the context the handler gave this call never ended, the call ran on
+		// (as a real runner would, generating) and the runner was shut down under it
+		e.violate("C01", "runner instance %d (model %d) was shut down while a %s call of request %d was still executing on it: the request's client had gone, but the context the handler gave the call never ended, so the call was never cancelled", s.id, s.model, what, r.sb.id)
 	}
 	e.mu.Unlock()
 }
 
 func (s *sbrSrv) Completion(ctx context.Context, req llm.CompletionRequest, fn func(llm.CompletionResponse)) (err error) {
-	r := s.enter(ctx, "completion")
-	defer func() { s.leave(r, "completion", err) }()
+	var byPrompt *sbrReq
+	if m := sbrTagRe.FindString(req.Prompt); m != "" {
+		s.x.e.mu.Lock()
+		byPrompt = s.x.byTag[m]
+		s.x.e.mu.Unlock()
+	}
+	r := s.enter(ctx, "completion", byPrompt)
+	if r != nil {
+		s.x.e.mu.Lock()
+		r.startedBeforeClose = s.closeBegun == 0
+		s.x.e.mu.Unlock()
+	}
+	defer func() { s.leave(ctx, r, "completion", err) }()
 	for _, c := range []string{"Hel", "lo "} {
 		if err := ctx.Err(); err != nil {
 			return err
@@ -391,8 +416,8 @@ func (s *sbrSrv) Completion(ctx context.Context, req llm.CompletionRequest, fn f
 }
 
 func (s *sbrSrv) Embedding(ctx context.Context, input string) (v []float32, err error) {
-	r := s.enter(ctx, "embedding")
-	defer func() { s.leave(r, "embedding", err) }()
+	r := s.enter(ctx, "embedding", nil)
+	defer func() { s.leave(ctx, r, "embedding", err) }()
 	if r != nil && strings.Contains(input, sbrFailText) {
 		// the input the runner cannot embed: the error comes at once or after a while, typically while the embeddings of the
 		// request's other inputs are still being computed
@@ -427,7 +452,7 @@ func (s *sbrSrv) Embedding(ctx context.Context, input string) (v []float32, err 
 }
 
 func (s *sbrSrv) Tokenize(ctx context.Context, content string) (tokens []int, err error) {
-	s.use(ctx, "tokenize")
+	s.use(ctx, "tokenize", nil)
 	for range strings.Fields(content) {
 		tokens = append(tokens, len(tokens))
 	}
@@ -435,7 +460,7 @@ func (s *sbrSrv) Tokenize(ctx context.Context, content string) (tokens []int, er
 }
 
 func (s *sbrSrv) Detokenize(ctx context.Context, tokens []int) (string, error) {
-	s.use(ctx, "detokenize")
+	s.use(ctx, "detokenize", nil)
 	return "", nil
 }
 
@@ -456,6 +481,7 @@ type sbrReq struct {
 	gate                          chan struct{}
 	holding                       int // calls of this request that wait in the runner for the harness to finish it
 	active                        int // Completion / Embedding calls of this request that have not returned
+	startedBeforeClose            bool // its last Completion call began on a runner that had not been shut down
 	embedded                      int // Embedding calls of inputs the runner accepts that have returned
 	released                      bool
 	quiet                         bool // issued by the drain: not classified
@@ -489,6 +515,9 @@ type sbrEngine struct {
 	reqs  []*sbrReq
 	ev    int // event counter (under e.mu)
 	ew    *sbrErrWriter
+
+	byTag  map[string]*sbrReq // generate / chat requests by the tag their prompt carries ("rq<N>"): a Completion call is
+	tagSeq int                // attributed to its request even when the context it is given does not carry the request's values
 
 	releaseAll       bool // drain / clean-up: runners no longer wait for a finish action
 	softsBeforeDrain int
@@ -534,6 +563,10 @@ func (x *sbrEngine) start(a sbrAction, unload bool) {
 	body := map[string]any{"model": sbrName(m)}
 	path := "/api/" + a.Req
 	opts, optMap := x.optsOf(a)
+	e.mu.Lock()
+	x.tagSeq++
+	tag := fmt.Sprintf("rq%d", x.tagSeq)
+	e.mu.Unlock()
 	if unload {
 		body["keep_alive"] = 0
 		opts, optMap = api.DefaultOptions(), nil
@@ -547,14 +580,14 @@ func (x *sbrEngine) start(a sbrAction, unload bool) {
 		switch a.Req {
 		case "generate":
 			if !a.Empty {
-				body["prompt"] = "hello there"
+				body["prompt"] = "hello there " + tag
 			}
 			if a.NoStrm {
 				body["stream"] = false
 			}
 		case "chat":
 			if !a.Empty {
-				body["messages"] = []map[string]string{{"role": "user", "content": "hi you"}}
+				body["messages"] = []map[string]string{{"role": "user", "content": "hi you " + tag}}
 			}
 			if a.NoStrm {
 				body["stream"] = false
@@ -597,6 +630,12 @@ func (x *sbrEngine) start(a sbrAction, unload bool) {
 		shown = shown[:150] + " ... " + shown[len(shown)-200:]
 	}
 	r := &sbrReq{a: a, path: path, unload: unload, rw: &c04Recorder{ResponseRecorder: httptest.NewRecorder()}}
+	e.mu.Lock()
+	if x.byTag == nil {
+		x.byTag = map[string]*sbrReq{}
+	}
+	x.byTag[tag] = r
+	e.mu.Unlock()
 	ctx, cancel := context.WithCancel(context.WithValue(context.Background(), sbrCtxKey{}, r))
 	r.sb = &sbReq{model: m, opts: opts, mdl: e.models[m], cancel: cancel}
 	hreq := httptest.NewRequest("POST", path, bytes.NewReader(js)).WithContext(ctx)
